@@ -293,6 +293,8 @@ def check(facts, rep, tier, cfg):
     rep.rule("C02.R12", "no cross-talk through flow-id reuse (= C06.R7): only the stream handle's Drop (own id) and the multiplexor handle (0) report on "
                         "the dropped-flows queue, so a finished stream's later drop can never close a new stream that re-used its id")
     check_dropped_flow_senders(facts, rep, crate, "C02.R12")
+    import adapter
+    adapter.check_adapter(facts, rep, "C02.S8")
     rep.rule("C02.S7", "who-may: the functions that touch the critical resources behind this property are those of the reference tree (flow table, closed flag, per-stream / datagram / outbound queues, last-pong timestamp, client id maps, shared TLS identity)")
     import whomay
     whomay.check(facts, rep, "C02.S7", "C02")
